@@ -139,6 +139,15 @@ def _get_meta(tree: ParseTree, parser: Lark) -> MetaData:
     )
 
 
+def _get_lark_error_position(
+    source: str, exception: Union[UnexpectedCharacters, UnexpectedEOF]
+) -> Tuple[int, int]:
+    # lark reports an unexpected EOF at line -1, column -1: point at the last line
+    if exception.line < 1:
+        return len(source.split("\n")), 1
+    return exception.line, exception.column
+
+
 class Token:
     """Metadata stub for any token."""
 
@@ -415,11 +424,10 @@ class FcpV2Transformer(Transformer):
             self.error_logger.add_source(filename.name, source)
             fcp_ast = fcp_parser.parse(source)
         except (UnexpectedCharacters, UnexpectedEOF) as e:
+            line, column = _get_lark_error_position(source, e)
             return error(
                 self.error_logger.log_lark(filename.name, e),
-                Token(
-                    MetaData(e.line, e.line, e.column, e.column, 0, 0, str(filename))
-                ),
+                Token(MetaData(line, line, column, column, 0, 0, str(filename))),
             )
 
         fcp = FcpV2Transformer(
@@ -561,10 +569,11 @@ def _get_fcp(
     logger.add_source(filename.name, source)
     try:
         fcp_ast = fcp_parser.parse(source)
-    except UnexpectedCharacters as e:
+    except (UnexpectedCharacters, UnexpectedEOF) as e:
+        line, column = _get_lark_error_position(source, e)
         return error(
             logger.log_lark(filename.name, e),
-            Token(MetaData(e.line, e.line, e.column, e.column, 0, 0, str(filename))),
+            Token(MetaData(line, line, column, column, 0, 0, str(filename))),
         )
 
     parser_context = ParserContext()
